@@ -11,7 +11,9 @@
 
   Like `Mem`, this file follows the *code* (order of checks, which primitive, which flavour);
   `FsProofs/OsRefines` relates it to the contract `Ref`.  Abstractions (the same as in `Mem`):
-  file handles are sessions, `copy_dir` (walker + bulk copier) is the tree-level merge, time stamps
+  file handles are sessions, `copy_dir` (walker + bulk copier) is the tree-level merge (proved to
+  agree with the algorithm as coded, `FsModel.BaseWalk` over these primitives:
+  `FsProofs/BaseWalkLaws.os_copydir_is_operational` / `os_movedir_is_operational`), time stamps
   are dropped; additionally `_remove_contents` works on the subtree (see `Posix.removeContents`),
   and a call on an already validated path (`self.exists(_dst_path)`) skips the second, idempotent
   `validatepath` (functions with suffix `C` take components).  `OSFS.validatepath` adds an
